@@ -675,11 +675,51 @@ Section AlphaP.
     intros H. split; [eapply alpha_string_charset|eapply alpha_string_min_len]; eauto.
   Qed.
 
-  (* the default alpha template of small-id mode does not contain the context *)
-  Lemma default_alpha_small_ignores_context a pid c c' i :
-    alpha_value mask nbits bpc a (default_alpha_tpl false) pid c i =
-    alpha_value mask nbits bpc a (default_alpha_tpl false) pid c' i.
-  Proof. reflexivity. Qed.
+  (* two alpha generators (same alphabet, same randomize flag, any templates with `index`) share a
+     code only if the instantiated tuples coincide *)
+  Lemma alpha_value_same_numbers a a' tpl tpl' pid pid' c c' i i' s :
+    al_alphabet a = al_alphabet a' -> al_randomize a = al_randomize a' ->
+    NoDup (al_alphabet a) -> (2 <= length (al_alphabet a))%nat ->
+    In PIndex tpl -> In PIndex tpl' ->
+    alpha_value mask nbits bpc a tpl pid c i = Ok s ->
+    alpha_value mask nbits bpc a' tpl' pid' c' i' = Ok s ->
+    instantiate tpl pid c i = instantiate tpl' pid' c' i'.
+  Proof.
+    intros Habc Hr Hnd Hlen Hi Hi'. unfold alpha_value, bind. rewrite <- Habc, <- Hr.
+    destruct (plain_value tpl pid c i) as [p|] eqn:P; [|discriminate].
+    destruct (plain_value tpl' pid' c' i') as [p'|] eqn:P'; [|discriminate].
+    destruct (if al_randomize a then scramble mask nbits p _ else Ok p) as [n|] eqn:S; [|discriminate].
+    destruct (if al_randomize a then scramble mask nbits p' _ else Ok p') as [n'|] eqn:S'; [|discriminate].
+    intros H H'.
+    assert (n = n') by (eapply alpha_string_inj; eauto). subst n'.
+    assert (p = p').
+    { destruct (al_randomize a); [eapply scramble_inj; eauto|congruence]. }
+    subst p'. eapply plain_value_inj; eauto.
+  Qed.
+
+  Lemma default_alpha_instantiate big pid c i :
+    instantiate (default_alpha_tpl big) pid c i = (if big then pid else []) ++ [c; i].
+  Proof.
+    destruct big; cbn [default_alpha_tpl instantiate flat_map part_nums app]; reflexivity.
+  Qed.
+
+  Lemma default_alpha_has_index big : In PIndex (default_alpha_tpl big).
+  Proof. destruct big; cbn; auto. Qed.
+
+  (* default alpha generators (both id modes): a code in common means same generator, same draw *)
+  Lemma pipeline_alpha_pair a a' big big' pid pid' c c' i i' s :
+    al_alphabet a = al_alphabet a' -> al_randomize a = al_randomize a' ->
+    NoDup (al_alphabet a) -> (2 <= length (al_alphabet a))%nat ->
+    alpha_value mask nbits bpc a (default_alpha_tpl big) pid c i = Ok s ->
+    alpha_value mask nbits bpc a' (default_alpha_tpl big') pid' c' i' = Ok s ->
+    c = c' /\ i = i'.
+  Proof.
+    intros Habc Hr Hnd Hlen H H'.
+    pose proof (alpha_value_same_numbers _ _ _ _ _ _ _ _ _ _ _ Habc Hr Hnd Hlen
+                  (default_alpha_has_index big) (default_alpha_has_index big') H H') as He.
+    rewrite !default_alpha_instantiate in He. eapply app_tail2; eauto.
+  Qed.
+
 End AlphaP.
 
 (* ================================================================ a whole process *)
@@ -767,3 +807,44 @@ Section ProcessP.
         apply in_map_iff in Hin. destruct Hin as (? & Hp & _). injection Hp as -> _. exact Hg0.
   Qed.
 End ProcessP.
+
+Section AlphaProcessP.
+  Variable mask : Z -> Z -> Z.
+  Variable nbits : Z -> Z.
+  Variable bpc : Z -> Z.
+
+  Definition akey_value (abc : list Z) (rc : bool) (k : agen * Z) : result (list Z) :=
+    alpha_value mask nbits bpc (mkAlpha abc (ag_min_chars (fst k)) rc)
+                (default_alpha_tpl (ag_big (fst k))) (ag_pid (fst k)) (ag_ctx (fst k)) (snd k).
+
+  Lemma aprocess_draws_keys abc rc gens :
+    aprocess_draws mask nbits bpc abc rc gens =
+    map (akey_value abc rc) (flat_map (fun g => map (pair g) (Zseq alpha_start (ag_n g))) gens).
+  Proof.
+    unfold aprocess_draws. rewrite map_flat_map. apply flat_map_ext. intros g.
+    unfold agen_draws. rewrite map_map. reflexivity.
+  Qed.
+
+  (* all codes of all default alpha generators of a process (one alphabet, one randomize flag, any
+     min_chars) are pairwise distinct *)
+  Lemma pipeline_alpha_NoDup abc rc gens codes :
+    NoDup abc -> (2 <= length abc)%nat ->
+    NoDup (map ag_ctx gens) -> aprocess_draws mask nbits bpc abc rc gens = map Ok codes ->
+    NoDup codes.
+  Proof.
+    intros Hnd Hlen Hctx He. rewrite aprocess_draws_keys in He.
+    eapply NoDup_of_injective_keys; [| |exact He].
+    - apply NoDup_flat_pairs; [eapply NoDup_map_inv; eauto|]. intros g. apply Zseq_NoDup.
+    - intros [g i] [g' i'] v Hx Hy Hv Hv'. unfold akey_value in Hv, Hv'. cbn [fst snd] in Hv, Hv'.
+      assert (Hp : ag_ctx g = ag_ctx g' /\ i = i').
+      { eapply (pipeline_alpha_pair mask nbits bpc (mkAlpha abc (ag_min_chars g) rc)
+                                    (mkAlpha abc (ag_min_chars g') rc));
+          [reflexivity|reflexivity|exact Hnd|exact Hlen|exact Hv|exact Hv']. }
+      destruct Hp as [Hc ->].
+      f_equal. apply (NoDup_map_In_inj ag_ctx gens); auto.
+      + apply in_flat_map in Hx. destruct Hx as (g0 & Hg0 & Hin).
+        apply in_map_iff in Hin. destruct Hin as (? & Hp & _). injection Hp as -> _. exact Hg0.
+      + apply in_flat_map in Hy. destruct Hy as (g0 & Hg0 & Hin).
+        apply in_map_iff in Hin. destruct Hin as (? & Hp & _). injection Hp as -> _. exact Hg0.
+  Qed.
+End AlphaProcessP.
